@@ -36,7 +36,7 @@ for p in props:
     })
 
 hooks = subprocess.run(['git', '-C', '/repo', 'log', '--format=%H %s'], capture_output=True, text=True).stdout.splitlines()
-hook_commits = [l.split()[0] for l in hooks if 'verif hook' in l]
+hook_commits = [l.split()[0] for l in hooks if l.split(' ', 1)[1].startswith('verif')]
 
 m = {
  'version': 1,
